@@ -505,7 +505,7 @@ func c04(c *core.Ctx) {
 		genuine := append([]byte(nil), m.Raw...)
 		c04Judge(c, genuine, key, "genuine-before-rewrite", false)
 		forged := append([]byte(nil), genuine...)
-		p := 24 + 4*r.Intn(1) // inside the first attribute's value (at least 8 bytes long)
+		p := 24 + 4*r.Intn(1)                 // inside the first attribute's value (at least 8 bytes long)
 		for _, variant := range []int{0, 1} { // CRC computed over the bytes as they are on the wire / with the header length the HMAC uses
 			f := append([]byte(nil), forged...)
 			g := append([]byte(nil), genuine...)
